@@ -257,6 +257,19 @@ Proof.
   rewrite N.div_add_l by lia. rewrite (N.div_small _ _ Ha). lia.
 Qed.
 
+(* ... and exactly: slot = the low 26 bits of h1, value = min(leading zeros of h2, 62) + 1 *)
+Theorem hll_coupon_fields h :
+  let c := hll_coupon_of h in
+  c mod 2 ^ 26 = fst h mod 2 ^ 26 /\ c / 2 ^ 26 = N.min (lz64 (snd h)) 62 + 1.
+Proof.
+  destruct h as [lo hi]. cbn zeta. unfold hll_coupon_of. cbn [fst snd].
+  assert (Hm : N.land lo 0x3ffffff = lo mod 2 ^ 26) by (change 0x3ffffff with (N.ones 26); apply N.land_ones).
+  assert (Ha : N.land lo 0x3ffffff < 2 ^ 26) by (rewrite Hm; apply N.mod_lt; lia).
+  rewrite lor_shiftl_lt by exact Ha. split.
+  - rewrite N.add_comm, N.mod_add by lia. rewrite (N.mod_small _ _ Ha). exact Hm.
+  - rewrite N.div_add_l by lia. rewrite (N.div_small _ _ Ha). lia.
+Qed.
+
 Theorem theta_hash_range h : fst h < M64 -> theta_hash_of h < 2 ^ 63.
 Proof.
   intros H. unfold theta_hash_of. rewrite N.shiftr_div_pow2.
